@@ -144,6 +144,52 @@ def taint_selftest(chk):
            key="C12.O1s|positive")
 
 
+def _import_time_only(P, fi):
+    """fi (a module-level function) is referenced at least once, and never from inside a function body"""
+    name = fi.name
+    at_module_level = 0
+    for m in P.modules.values():
+        def visit(node, in_func):
+            nonlocal at_module_level
+            for ch in ast.iter_child_nodes(node):
+                if isinstance(ch, (ast.FunctionDef, ast.AsyncFunctionDef, ast.Lambda)):
+                    if isinstance(ch, ast.Lambda):
+                        if not visit(ch, True):
+                            return False
+                        continue
+                    # decorators and defaults are evaluated where the def statement stands
+                    for d in ch.decorator_list + ch.args.defaults + [x for x in ch.args.kw_defaults if x is not None]:
+                        if not visit_expr(d, in_func):
+                            return False
+                    if ch is fi.node:
+                        continue
+                    for st in ch.body:
+                        if not visit(ast.Module(body=[st], type_ignores=[]), True):
+                            return False
+                    continue
+                if isinstance(ch, (ast.Name, ast.Attribute)):
+                    if not visit_expr(ch, in_func):
+                        return False
+                    continue
+                if not visit(ch, in_func):
+                    return False
+            return True
+
+        def visit_expr(e, in_func):
+            nonlocal at_module_level
+            for n in ast.walk(e):
+                hit = (isinstance(n, ast.Name) and n.id == name and isinstance(n.ctx, ast.Load)) or \
+                      (isinstance(n, ast.Attribute) and n.attr == name)
+                if hit:
+                    if in_func:
+                        return False
+                    at_module_level += 1
+            return True
+        if not visit(m.tree, False):
+            return False
+    return at_module_level > 0
+
+
 def global_state(chk, P):
     bad = []
     nfun = 0
@@ -172,6 +218,20 @@ def global_state(chk, P):
                     bad.append((fi, node, "mutation of module-level object %s" % ast.unparse(node.func.value)))
                 if _class_level_container(fi, node.func.value):
                     bad.append((fi, node, "mutation of class-level container %s" % ast.unparse(node.func.value)))
+    # registration at import: a function used only in decorator position / at module level runs while the module is
+    # being imported, in source order - its writes are part of building the module's constants, not state that a
+    # tabulation can observe changing
+    still = []
+    for fi, node, what in bad:
+        outer = fi
+        while outer.parent is not None:
+            outer = outer.parent
+        if outer.cls is None and _import_time_only(P, outer):
+            chk.ob("C12.O2", "%s: %s - only while the module is imported (registration by decorator)" % (fi.qualname, what), True,
+                   site=fi.site(node), key="C12.O2|%s|%s|import-time" % (fi.fq, what))
+        else:
+            still.append((fi, node, what))
+    bad = still
     for fi, node, what in bad:
         chk.ob("C12.O2", "%s: %s" % (fi.qualname, what), False, site=fi.site(node), found=ast.unparse(node)[:100], expect="no shared state written",
                key="C12.O2|%s|%s" % (fi.fq, what))
